@@ -218,6 +218,40 @@ func (g *Gen) forgedCursor(kind string) (string, bool) {
 	return tok, !wellSigned
 }
 
+// forgedValidCursor returns a cursor whose content would pass every check of the api helper but whose
+// signature does not verify: either the signature is damaged, or the payload of one genuine cursor
+// is combined with the signature of another.
+func (g *Gen) forgedValidCursor(kind string) string {
+	r := g.R
+	mk := func(sid int64, limit int) string {
+		var tok string
+		if kind == "SearchPromises" {
+			tok, _ = (&t_api.Cursor[t_api.SearchPromisesRequest]{Next: &t_api.SearchPromisesRequest{Id: "*", States: []promise.State{promise.Pending, promise.Resolved, promise.Rejected, promise.Timedout, promise.Canceled}, Tags: map[string]string{}, Limit: limit, SortId: &sid}}).Encode()
+		} else {
+			tok, _ = (&t_api.Cursor[t_api.SearchSchedulesRequest]{Next: &t_api.SearchSchedulesRequest{Id: "*", Tags: map[string]string{}, Limit: limit, SortId: &sid}}).Encode()
+		}
+		return tok
+	}
+	a, b := mk(int64(1+r.Intn(20)), 1+r.Intn(3)), mk(1_000_000, 100)
+	if r.Intn(2) == 0 {
+		// payload of b under the signature of a
+		pa, pb := strings.Split(a, "."), strings.Split(b, ".")
+		if len(pa) == 3 && len(pb) == 3 {
+			return pb[0] + "." + pb[1] + "." + pa[2]
+		}
+	}
+	i := strings.LastIndex(a, ".")
+	sig := []byte(a[i+1:])
+	if len(sig) > 0 {
+		if sig[0] == 'A' {
+			sig[0] = 'B'
+		} else {
+			sig[0] = 'A'
+		}
+	}
+	return a[:i+1] + string(sig)
+}
+
 // hostileReq produces one hostile request through one of the front ends.
 func (g *Gen) hostileReq() *ReqSpec {
 	r := g.R
